@@ -267,10 +267,12 @@ def case_talbot(log):
         if at_half:
             seen["half"] += 1
             lim_p, lim_j = _talbot_limit(mel, r, o)
-            v = prove_zero(_plain(p) - lim_p, "Talbot_path(1/2) == lim_{t->1/2} Talbot_path(t)  (series of the real code in t - 1/2)")
-            decide(log, v, key="Talbot_path:t=1/2", replay=(MOD, "replay_talbot", {"half": True}), sampler=_sampler)
-            v = prove_zero(_plain(j) - lim_j, "Talbot_jac(1/2) == lim_{t->1/2} Talbot_jac(t)")
-            decide(log, v, key="Talbot_jac:t=1/2", replay=(MOD, "replay_talbot", {"half": True}), sampler=_sampler)
+            for nm, val, lim in (("Talbot_path", p, lim_p), ("Talbot_jac", j, lim_j)):
+                if lim is None:
+                    v = prove_formula(z3.BoolVal(False), "%s(t) has a finite limit for t -> 1/2 (the series of the real code has a pole)" % nm)
+                else:
+                    v = prove_zero(_plain(val) - lim, "%s(1/2) == lim_{t->1/2} %s(t)  (series of the real code in t - 1/2)" % (nm, nm))
+                decide(log, v, key="%s:t=1/2" % nm, replay=(MOD, "replay_talbot", {"half": True}), sampler=_sampler)
         else:
             seen["generic"] += 1
             v = prove_zero(_tan(p) - _plain(j), "d Talbot_path/dt == Talbot_jac  (t != 1/2)")
@@ -315,7 +317,8 @@ def _talbot_limit(mel, r, o):
     for fn in (mel.Talbot_path, mel.Talbot_jac):
         J = Jet.lift(fn(t, r.novar(), o.novar()))
         if J.c and J.v < 0:
-            raise EngineError("%s has a pole at t = 1/2" % fn.__name__)
+            out.append(None)  # pole: no finite limit
+            continue
         out.append(_plain(Cx.lift(J.coef(0))))
     return out
 
@@ -584,11 +587,21 @@ def replay_talbot(point, half):
     r, o = g
     mp.mp.dps = 30
     if half:
+        if not (0 < r < 1e3) or abs(o) > 1e3:
+            return None
         p, j = mel.Talbot_path(0.5, r, o), mel.Talbot_jac(0.5, r, o)
-        wp = mp.limit(lambda e: _talbot_mp(mp.mpf(1) / 2 + e, r, o), 0)
-        wj = mp.limit(lambda e: mp.diff(lambda t: _talbot_mp(t, r, o), mp.mpf(1) / 2 + e), 0)
+        mp.mp.dps = 50
+        wp = _talbot_mp(mp.mpf(1) / 2 + mp.mpf(10) ** -14, r, o)  # the contour is analytic at t = 1/2
+        wj = mp.diff(lambda t: _talbot_mp(t, r, o), mp.mpf(1) / 2 + mp.mpf(10) ** -10)
         if _differs(p, wp, 1e-7) or _differs(j, wj, 1e-6):
-            return {"detail": "Talbot at t=1/2 (r=%r, o=%r): path %r (limit %s), jac %r (limit %s)" % (r, o, p, wp, j, wj)}
+            return {"detail": "Talbot at t=1/2 (r=%r, o=%r): path %r (limit of the contour %s), jac %r (limit of its derivative %s)" % (r, o, p, wp, j, wj)}
+        # continuity of the real functions at t = 1/2 (both are smooth there: |f(1/2+h) - f(1/2)| <= 100 r h)
+        for h in (1e-3, 1e-4):
+            for fn, v0 in ((mel.Talbot_path, p), (mel.Talbot_jac, j)):
+                for sgn in (1, -1):
+                    d = abs(complex(fn(0.5 + sgn * h, r, o)) - complex(v0))
+                    if d > 100 * r * h + 1e-7:
+                        return {"detail": "%s is discontinuous at t=1/2 (r=%r, o=%r): value %r at 1/2 but %r at 1/2%+g" % (fn.__name__, r, o, v0, fn(0.5 + sgn * h, r, o), sgn * h)}
         return None
     if "t" not in point:
         return None
